@@ -107,7 +107,7 @@ def plain(sx, B):
            anchors=["polyply.src.simple_seq_parsers:parse_ig", "polyply.src.simple_seq_parsers:parse_fasta",
                     "polyply.src.simple_seq_parsers:_parse_plain_delimited", "polyply.src.simple_seq_parsers:_identify_residues",
                     "polyply.src.meta_molecule:MetaMolecule.from_sequence_file"],
-           rejects=(), selector_only=True, must_cover=["ig linear", "ig circular", "fasta", "txt", "protein sequence spelling DNA/RNA"],
+           rejects=(), selector_only=True, must_cover=["ig linear", "ig circular", "fasta", "txt", "protein sequence spelling DNA/RNA", "fasta with a second record"],
            outside=[".txt files with blank lines or several spaces between names (the statement restricts .txt to single-space separated)",
                     "more than one sequence per file", "circular sequences shorter than 3"],
            bounds={"quick": dict(nmax=3, alpha=list("ACGTV"), names=["PEO", "PS", "A"]),
@@ -149,6 +149,10 @@ def files(sx, B):
         else:
             circular = False
             text = "> my %s\n%s\n" % (kind, body)
+            if sx.sel("second_record", [False, True]):
+                # only the first record of a .fasta file is used
+                text += "> another record\n%s\n" % ("".join(letters[:2]) or "A")
+                sx.cover("fasta with a second record")
             p = d / "seq.fasta"
         p.write_text(text)
         want = expected_names(letters, kind, circular)
